@@ -46,6 +46,8 @@ def gen_cases(tier, seed):
     yield "null_data", {"lens": list(range(0, 81)), "salt": rng.getrandbits(32)}
     for i in range(150 if q else 2000):
         yield "simple_templates", {"salt": rng.getrandbits(40)}
+    for i in range(3 if q else 30):
+        yield "arg_forms", {"salt": rng.getrandbits(32)}
 
 
 def required(tier):
@@ -98,6 +100,19 @@ def run_case(kind, params, ctx):
     import bits.script as bs
     rng = rng_for("C13", kind, params.get("salt", 0))
     asm = getattr(bs.script, "__wrapped__", bs.script)
+    if kind == "arg_forms":
+        from .common import arg_forms
+        import bits.script.utils as bsu
+        for _ in range(6):
+            scr = rscript.push(rand_bytes(rng, rng.choice([1, 20, 75, 76, 255, 256]))) + bytes([0x76, 0xA9, 0x87, 0xAC][: rng.randrange(1, 5)])
+            arg_forms(ctx, "decode_script", lambda b: bsu.decode_script(b), [scr])
+            wit = bytes([2]) + bytes([3]) + rand_bytes(rng, 3) + bytes([0])
+            arg_forms(ctx, "decode_script(witness)", lambda b: bsu.decode_script(b, witness=True), [wit])
+            h = rand_bytes(rng, 20)
+            arg_forms(ctx, "p2pkh_script_pubkey", bsu.p2pkh_script_pubkey, [h])
+            arg_forms(ctx, "p2sh_script_pubkey", bsu.p2sh_script_pubkey, [h])
+        ctx.nontrivial()
+        return
     if kind == "push_len":
         for n in params["lens"]:
             data = rand_bytes(rng, n)
